@@ -1605,6 +1605,26 @@ pub fn run_c15(tier: Tier, budget: Duration, frag: &mut Frag) {
                 }
             }
         }
+        // very wide stages (around the range of an 8-bit counter), followed by a stage of one; no deviations
+        let mut wide_scs = Vec::new();
+        for w in [255usize, 256, 257] {
+            let mut ops = wide_stage(w);
+            ops.push(Op::Barrier);
+            ops.push(sy("last", &[], &[0], &[]));
+            let mut sc = Scenario::plain(ops, Mode::Async, 0);
+            sc.script = Some("DWDW".to_string());
+            wide_scs.push(sc);
+        }
+        {
+            let t0 = Instant::now();
+            let opts = ExploreOpts { bounds: vec![0], all_points: false, deadline: t0 + budget / 6, max_execs: u64::MAX, keep_traces: 0, deadlock_prop: Some("C15"), delay_mode: true };
+            let r = run_scenarios(&wide_scs, Mon::default(), &opts);
+            frag.parts.push(json!({"engine":"E2 schedmc","scenarios":"one stage of 255 / 256 / 257 side-by-side systems, then a stage of one; script DWDW; default schedule only (bound 0)","n_scenarios":wide_scs.len(),"scenarios_completed":r.completed,"schedules":r.executions,"states":r.nodes,"transitions":r.transitions,"deadlocks":r.deadlocks,"cap_hit":r.capped,"wall_s":t0.elapsed().as_secs_f64()}));
+            frag.states += r.nodes;
+            frag.transitions += r.transitions;
+            frag.exhaustive &= !r.capped;
+            frag.col.merge(r.col);
+        }
         let t0 = Instant::now();
         let opts = ExploreOpts { bounds: vec![0, 1], all_points: false, deadline: t0 + budget / 5, max_execs: u64::MAX, keep_traces: 0, deadlock_prop: Some("C15"), delay_mode: true };
         let r = run_scenarios(&scs, Mon::default(), &opts);
